@@ -16,7 +16,7 @@ EXPLANATION = (
     "(see DESIGN: the const-evaluated universe witness is a compile-time evaluation, kept separate).")
 
 NOT_DECIDED = [
-    "that distinct types get distinct 128-bit values (collision freedom of from_unique_type_name/combine) beyond what the structural clauses imply",
+    "that distinct types get distinct 128-bit values outside the witness universe of C14.f (2 300 / 6 600 types incl. derived fixtures): collision freedom in general",
     "identity of ids across compiler versions for derive names that embed the package version",
 ]
 ASSUMPTIONS = ["type parameters that are not folded are reported; marker parameters are expected to be folded as well"]
